@@ -6,7 +6,10 @@ tap (a wrapper around the registered 'rest' function and around Executor.run_one
 truth from the objects. The same policy is then run in process (own payload builder, own poll rule, own
 decision conversion) and the statistics of the two runs are compared.
 Correspondence: kind 19 (the scheduler's bookkeeping: which ticks call, tick/sim_time, new / other /
-complete ids, table sizes), kind 29 (replies through the real _parse_suspensions/_parse_assignments)."""
+complete ids, table sizes), kind 29 (replies through the real _parse_suspensions/_parse_assignments), kind 39 (the
+WHOLE REST-driven simulation: Model/SimGen.v [gsim_tick] with Model/RestSim.v [rest_gstep] answering with the
+recorded replies, against every recorded request body field by field, the decisions the executor was handed and
+the results it returned, tick by tick; one case per HTTP run, layout in Model/RunRestSim.v)."""
 import collections
 import json
 import math
@@ -17,7 +20,8 @@ import types
 from fractions import Fraction as F
 from http.server import BaseHTTPRequestHandler, ThreadingHTTPServer
 
-from harness.impl import Q, enc_list, PRIO, PRIO_VAL
+from harness.impl import Q, enc_list, enc_pipes, err_code, OST, PRIO, PRIO_VAL
+from harness import execdrv as X
 
 from eudoxia.simulator import run_simulator
 from eudoxia.workload import Workload
@@ -31,8 +35,9 @@ from eudoxia.utils import Priority
 
 ID = 'C19'
 BRIDGE_IMPORTS = 'From Eudoxia Require Import Model.Rest.\n'
-KIND_REST, KIND_CODEC = 19, 29
-K_ALL_KINDS = (KIND_REST,)
+KIND_REST, KIND_CODEC, KIND_RESTSIM = 19, 29, 39
+RESTSIM_CAP = 4800          # integers per kind-39 case (input + answer)
+K_ALL_KINDS = (KIND_REST, KIND_RESTSIM)
 SLACK = F(1, 10 ** 9)
 OP_KEYS = {'id', 'state', 'is_assignable_state', 'parents_complete'}
 INPROC_KEY = 'c19_inprocess'
@@ -74,6 +79,10 @@ ASSUMPTIONS = [
     'kind 19 input: the success flags are read from the pipeline objects right after rest_scheduler returns '
     '(operator COMPLETED counts do not change inside the scheduler call); to keep cases small they are listed only for '
     'the pipelines the scheduler can look at in that tick (keys of s.other_pipelines before the call, and the arrivals)',
+    'kind 39: the per-tick memory scripts of the operators are probed from the real Container for every (operator, cpus) '
+    'pair that occurs in a recorded reply (as kind 5 does); the server is replaced by its recorded replies (the model '
+    'does not run the policy); runs whose encoding exceeds ~4800 integers are cut to a prefix of their ticks; '
+    'statistics are not part of the case',
     'a blind suspension may be refused by the executor (the payload does not say whether a container can be suspended): '
     'the AssertionError ends both the HTTP and the in-process run, which are then compared by error, tick and calls',
 ]
@@ -410,6 +419,7 @@ def run_http(r, server):
         stats = run_simulator(params_of(r, 'rest', f'127.0.0.1:{server.port}'), workload=workload_of(r))
     except (AssertionError, AttributeError, KeyError, IndexError) as e:
         err = norm_exc(e)
+        tap.err_code = err_code(e)
     finally:
         D.SCHEDULING_ALGOS['rest'] = saved
         tap.base = saved_num
@@ -724,6 +734,170 @@ def rest_case(r, tap):
     return dict(kind=KIND_REST, inp=inp, obs=obs, recipe=r, gen=r['gen'])
 
 
+# ------------------------------------------------------------------------------------------------
+# kind 39: the whole REST-driven simulation against Model/RestSim.v inside Model/SimGen.v
+
+P_VALS = {'QUERY': 1, 'INTERACTIVE': 2, 'BATCH_PIPELINE': 3}
+STATE_IDX = {s.value: i for i, s in enumerate(OST)}
+
+
+def zint(x):
+    """a JSON number that the model keeps as an integer (CPU counts)"""
+    f = F(x)
+    if f.denominator != 1:
+        raise ValueError(f'not an integer: {x!r}')
+    return f.numerator
+
+
+class Canon:
+    """canonical numbers of one run: pipeline = arrival index (0-based), operator = global number by pipeline and
+    insertion index (as harness.impl.World), container = number counted from Container.next_container_num at the
+    start of the run; unknown tokens become -1"""
+
+    def __init__(self, tap):
+        self.base = tap.base
+        self.pnum, self.onum, self.opobj, self.pipes = {}, {}, [], []
+        for k, p in enumerate(tap.arrived):
+            self.pnum.setdefault(p.pipeline_id, k)
+            ins = [p.values.node_lookup[i] for i in p.values.node_ids]
+            idx = {o: i for i, o in enumerate(ins)}
+            for o in ins:
+                self.onum[str(o.id)] = len(self.opobj)
+                self.opobj.append(o)
+            self.pipes.append((PRIO_VAL[p.priority], [[idx[q] for q in o.parents] for o in ins]))
+
+    def pipe(self, pid):
+        return self.pnum.get(pid, -1)
+
+    def op(self, oid):
+        return self.onum.get(oid, -1)
+
+    def ops(self, ids):
+        return enc_list([self.op(i) for i in ids])
+
+    def cid(self, c):
+        m = re.fullmatch(r'c(\d+)', c) if isinstance(c, str) else None
+        return int(m.group(1)) - self.base if m else -1
+
+    def tag(self, pid):
+        return -1 if pid == 'no_pipeline' else -2 if pid == 'multiple_pipelines' else self.pipe(pid)
+
+
+def enc_result_view(x, cn):
+    return ([cn.cid(x['container_id'])] + cn.ops(x['ops']) + [zint(x['cpu'])] + Q(x['ram'])
+            + [P_VALS.get(x['priority'], 0), x['pool_id'], int(x['error'] is not None)])
+
+
+def enc_request(b, cn):
+    """the digest of a recorded request body, field by field as Model/RunRestSim.v [dump_request]"""
+    def pipe(p):
+        return ([cn.pipe(p['pipeline_id']), P_VALS.get(p['priority'], 0)]
+                + ([0] if p['arrival_tick'] is None else [1, p['arrival_tick']])
+                + [int(p['is_complete']), int(p['has_failures'])]
+                + enc_list(p['operators'], lambda o: [cn.op(o['id']), STATE_IDX.get(o['state'], -1),
+                                                      int(o['is_assignable_state']), int(o['parents_complete'])]))
+
+    def cont(c):
+        return ([cn.cid(c['container_id']), cn.tag(c['pipeline_id'])] + cn.ops(c['operator_ids']) + [zint(c['cpu'])]
+                + Q(c['ram_gb']) + Q(c['current_memory_gb']) + [P_VALS.get(c['priority'], 0)])
+
+    def pool(p):
+        return ([p['pool_id'], zint(p['max_cpu'])] + Q(p['max_ram_gb']) + [zint(p['avail_cpu'])] + Q(p['avail_ram_gb'])
+                + Q(p['consumed_ram_gb']) + enc_list(p['active_containers'], cont)
+                + enc_list(p['suspending_containers'], cont) + enc_list(p['suspended_containers'], cont))
+    return ([b['tick']] + Q(b['sim_time_seconds']) + enc_list(b['results'], lambda x: enc_result_view(x, cn))
+            + enc_list(b['new_pipelines'], pipe) + enc_list(b['other_pipelines'], pipe) + enc_list(b['pools'], pool))
+
+
+def enc_reply(reply, cn):
+    """a recorded reply in the wire form of Model/Rest.v [decode_reply], tokens replaced by canonical numbers"""
+    return (enc_list(reply['suspensions'], lambda s: [cn.cid(s['container_id']), s['pool_id']])
+            + enc_list(reply['assignments'], lambda a: cn.ops(a['operator_ids']) + Q(a['cpu']) + Q(a['ram_gb'])
+                       + [P_VALS.get(a['priority'], 0), a['pool_id'], int(bool(a['is_resume'])), int(bool(a['force_run']))]))
+
+
+def seg_dicts(op):
+    return [dict(baseline_cpu_seconds=s.baseline_cpu_seconds, cpu_scaling=s.scaling_func,
+                 storage_read_gb=s.storage_read_gb, memory_gb=s.memory_gb) for s in op.values]
+
+
+def restsim_build(r, tap, cn, nticks):
+    """the kind-39 case of the first `nticks` simulator ticks of the HTTP run. Everything in `obs` is read from the
+    implementation run: the recorded request bodies, what the executor was handed and what it returned."""
+    ticks = tap.ticks[:nticks]
+    nbod = ticks[-1].get('b1', len(tap.bodies)) if ticks else 0
+    obs = []
+    for j, e in enumerate(ticks):
+        b1 = e.get('b1', len(tap.bodies))
+        nb = b1 - e['b0']
+        obs.append(nb)
+        for b in tap.bodies[e['b0']:b1]:
+            obs += enc_request(b, cn)
+        if j >= len(tap.exec_results):
+            obs.append(getattr(tap, 'err_code', 0) or -2)      # the tick raised: the run ends here
+            break
+        d = tap.exec_received[j]
+        obs.append(0)
+        obs += enc_list(d['suspensions'], lambda s: [cn.cid(s['container_id']), s['pool_id']])
+        obs += enc_list(d['assignments'], lambda a: cn.ops(a['operator_ids']) + [zint(a['cpu'])] + Q(a['ram_gb'])
+                        + [P_VALS.get(a['priority'], 0), a['pool_id']])
+        obs += enc_list(tap.exec_results[j], lambda x: enc_result_view(x, cn))
+    replies = tap.replies[:nbod]
+    npipes = sum(len(e['new']) for e in ticks)
+    arrivals = [(j, cn.pipe(pid)) for j, e in enumerate(ticks) for pid in e['new']]
+    used = {}
+    for rep in replies:
+        for a in rep['assignments']:
+            for i in a['operator_ids']:
+                k = (cn.op(i), zint(a['cpu']))
+                if k[0] >= 0 and k not in used:
+                    used[k] = X.probe_script(seg_dicts(cn.opobj[k[0]]), k[1], r['tps'])
+    scripts, idx, entries = [], {}, []
+    for (op, cpus), sc in sorted(used.items()):
+        key = tuple(sc)
+        if key not in idx:
+            idx[key] = len(scripts)
+            scripts.append(sc)
+        entries.append((op, cpus, idx[key]))
+    inp = [r['tps'], int(bool(r['over'])), int(bool(r['multi'])), r['npools'], r['cpu']] + Q(r['ram'])
+    inp += [len(ticks)] + Q(float(r['poll']))
+    inp += enc_pipes(cn.pipes[:npipes])
+    inp += enc_list(scripts, lambda s: enc_list(s, Q))
+    inp += enc_list(entries, lambda e: list(e))
+    inp += enc_list(arrivals, lambda a: list(a))
+    inp += enc_list(replies, lambda x: enc_reply(x, cn))
+    return inp, obs
+
+
+def restsim_case(r, tap):
+    """kind 39; long runs are cut to the longest prefix of ticks that keeps the case below RESTSIM_CAP integers
+    (the model runs tick by tick: a prefix of the run is a case of its own). Returns (case or None, info)"""
+    cn = Canon(tap)
+    total = n = len(tap.ticks)
+    info = dict(total=total, encoded=0, truncated=False, skipped=None)
+    if total == 0:
+        info['skipped'] = 'no tick'
+        return None, info
+    try:
+        inp, obs = restsim_build(r, tap, cn, n)
+        while len(inp) + len(obs) > RESTSIM_CAP and n > 1:
+            n = max(1, min(n - 1, int(n * RESTSIM_CAP / (len(inp) + len(obs)) * 0.97)))
+            inp, obs = restsim_build(r, tap, cn, n)
+    except ValueError as e:            # a fractional CPU count: outside the executor model (RestSim.v, boundaries)
+        info['skipped'] = str(e)
+        return None, info
+    except (KeyError, TypeError, AttributeError) as e:
+        # a request body / reply that does not have the documented shape cannot be digested: the case is kept, with
+        # an answer no model run gives, so that the run is reported as a correspondence mismatch
+        info.update(encoded=0, truncated=False, size=1, malformed=repr(e))
+        return dict(kind=KIND_RESTSIM, inp=[], obs=[-3], recipe=dict(r, replay_kind=KIND_RESTSIM), gen=r['gen']), info
+    if len(inp) + len(obs) > RESTSIM_CAP:
+        info['skipped'] = 'one tick exceeds the size cap'
+        return None, info
+    info.update(encoded=n, truncated=n < total, size=len(inp) + len(obs))
+    return dict(kind=KIND_RESTSIM, inp=inp, obs=obs, recipe=dict(r, replay_kind=KIND_RESTSIM), gen=r['gen']), info
+
+
 P_NAMES = {1: 'QUERY', 2: 'INTERACTIVE', 3: 'BATCH_PIPELINE', 0: 'URGENT', 4: 'batch_pipeline'}
 
 
@@ -933,14 +1107,19 @@ def drive(r, server):
             if d:
                 hit('http-vs-inprocess', f'statistics differ (HTTP vs in-process): {d}')
     info = dict(stats=stats, err=err, tap=tap, ip=ip, calls=calls)
+    info['restsim'], info['restsim_info'] = restsim_case(r, tap)
     return rest_case(r, tap), hits, info
 
 
 def replay(recipe):
     if recipe.get('gen') == 'G-codec':
         return codec_case(recipe)
+    want = recipe.get('replay_kind')
+    recipe = {k: v for k, v in recipe.items() if k != 'replay_kind'}
     with Server() as server:
-        case, hits, _ = drive(recipe, server)
+        case, hits, info = drive(recipe, server)
+    if want == KIND_RESTSIM and info['restsim'] is not None:
+        case = info['restsim']
     return case, hits
 
 
@@ -958,6 +1137,21 @@ def run(ctx):
             cases.append(case)
             hits += h
             tap, ip = info['tap'], info['ip']
+            rsc, rsi = info['restsim'], info['restsim_info']
+            if rsc is None:
+                st['restsim_runs_skipped'] += 1
+            else:
+                cases.append(rsc)
+                st['restsim_cases'] += 1
+                st['restsim_cases_cut_to_a_prefix_of_ticks'] += rsi['truncated']
+                st['restsim_ticks_encoded'] += rsi['encoded']
+                st['restsim_ticks_of_those_runs'] += rsi['total']
+                st['restsim_requests_encoded'] += sum(1 for x in tap.ticks[:rsi['encoded']]
+                                                      if x.get('b1', len(tap.bodies)) > x['b0'])
+                st['restsim_cases_ending_in_error'] += rsi['encoded'] > len(tap.exec_results)
+                st['restsim_max_case_size'] = max(st['restsim_max_case_size'], rsi['size'])
+                if len(tap.bodies) > 1:
+                    nt.add(tuple(rsc['inp']))
             st['runs'] += 1
             st[f'policy_{r["policy"]["name"]}'] += 1
             st[f'tps_{r["tps"]}'] += 1
@@ -1013,6 +1207,7 @@ def run(ctx):
                      '(naive-like / random admissible with suspensions / idle / mixing operators of two pipelines in one container), 1-3 pools, tps 1..1000, poll 0.01..2.5 s, '
                      '<= 300 ticks, hand-made DAG pipelines or the real WorkloadGenerator; all bodies recorded and checked '
                      'field by field against a tap; the same policy in process, statistics compared; kind 19 = '
-                     'bookkeeping of the whole run. G-codec: replies (every fourth malformed) through the real _parse_*; '
+                     'bookkeeping of the whole run; kind 39 = the whole run (requests, executed decisions, executor results per '
+                     'tick) replayed in the model from the recorded replies, cut to a prefix of ticks above 4800 integers. G-codec: replies (every fourth malformed) through the real _parse_*; '
                      'non-trivial = distinct inputs with at least two requests / distinct replies',
                 samples=[cases[0]['recipe'], cases[-1]['recipe']])
